@@ -336,6 +336,55 @@ def classify_identities(case):
     return labels, crosses or len(case["vec"]) > 1
 
 
+# ------------------------------------------------------------------------------------ histories on one underlying
+@st.composite
+def strat_underlying_history(draw, tier):
+    case = draw(strat_underlying(tier))
+    n = len(case["path"]["times"])
+    case["paths"] = [case.pop("path")] + [draw(_path(n=n, d=case["d"])) for _ in range(draw(st.integers(1, 3)))]
+    ops = draw(st.lists(st.one_of(st.tuples(st.just("eval"), st.integers(0, len(case["paths"]) - 1)),
+                                  st.tuples(st.just("update"), st.sampled_from(["LOG", "IDENDITY"]))),
+                        min_size=3, max_size=12))
+    case["ops"] = [list(o) for o in ops]
+    return case
+
+
+def body_underlying_history(case):
+    """one underlying object valued on a sequence of paths (and switched between representations): every value equals
+    the one a fresh object gives for that path alone"""
+    u = _make_underlying(case)
+    rep = "IDENDITY"
+    kind = case["kind"]
+    for step, (op, arg) in enumerate(case["ops"]):
+        if op == "update":
+            u.update(_rep(arg))
+            rep = arg
+            continue
+        p = case["paths"][arg]
+        times = np.array(p["times"], dtype=float)
+        got = np.array(u.value(times, _arr(p, "path", rep), _arr(p, "jump", rep)), dtype=float)
+        fresh = _make_underlying(case)
+        fresh.update(_rep(rep))
+        exp = np.array(fresh.value(times, _arr(p, "path", rep), _arr(p, "jump", rep)), dtype=float)
+        if got.shape != exp.shape or not np.array_equal(got, exp, equal_nan=True):
+            return [Violation(f"C17/underlying-history/{kind}/value-depends-on-earlier-evaluations-or-switches",
+                              f"step {step}: path {arg} in {rep} representation valued {got} after the history, {exp} by a "
+                              f"fresh object; kind={kind} d={case['d']} ops={case['ops']} levels={case['levels']} "
+                              f"index={case['index']} paths={case['paths']}")]
+    return []
+
+
+def classify_underlying_history(case):
+    ops = [o[0] for o in case["ops"]]
+    evals = [o[1] for o in case["ops"] if o[0] == "eval"]
+    labels = [case["kind"], f"d={case['d']}"]
+    if len(set(evals)) >= 2:
+        labels.append("several-paths")
+    if "update" in ops and "eval" in ops[ops.index("update"):]:
+        labels.append("switch-then-evaluate")
+    return labels, len(set(evals)) >= 2
+
+
 SUBCHECKS = [
     SubCheck("histories-on-one-product", body_history, classify_history,
              rule="operation lists (evaluate path i, switch to LOG / IDENTITY) over one Product (four barrier types, "
@@ -354,4 +403,9 @@ SUBCHECKS = [
                   "call-put=forward, call spread and butterfly vs call combinations, digital call+put=1, KI+KO=vanilla "
                   "(fresh and reused objects), notional linear; non-trivial = barrier crossed or vector strikes",
              strategy=strat_identities, budget={"quick": 1600, "thorough": 30000}),
+    SubCheck("histories-on-one-underlying", body_underlying_history, classify_underlying_history,
+             rule="every underlying class (incl. multi-name default times, n-th default, performances, indicators) as one "
+                  "object valued on a generated sequence of 2..4 paths with representation switches in between: each "
+                  "value bitwise equal to that of a fresh object; non-trivial = at least two different paths",
+             strategy=strat_underlying_history, budget={"quick": 2000, "thorough": 30000}, shards={"quick": 16, "thorough": 16}),
 ]
